@@ -69,7 +69,7 @@ def run(ctx):
     ctx.rule("R14.2", "vAMM State.open tested true on every success path of SwapInput, SwapOutput and SettleFunding", 3)
     ctx.rule("R14.3", "registered (insurance fund IsVamm{msg.vamm} on config.insurance_fund) and open (that vAMM's State.open) on every success path of Open, Liquidate, Withdraw, PayFunding", 8)
     ctx.rule("R14.4", "registry: duplicate and capacity guards precede every store of the list; capacity constant is 3; membership query reads the same item", 4)
-    ctx.rule("R14.5", "shutdown sends SetOpen{false} only to vAMMs just observed open, or the vAMM accepts a redundant close", 1)
+    ctx.rule("R14.5", "shutdown sends SetOpen{false} only to vAMMs just observed open, or the vAMM accepts a redundant close; a closed vAMM does not end the iteration", 2)
 
     # ---------------------------------------------------------------- R14.1
     def state_load(base):
@@ -235,6 +235,28 @@ def run(ctx):
                     is_open = query_pred(ix, "margined_vamm::QueryMsg", "State", same_target)
                     if not fact_field_is(ix, alt, "open", True, is_open):
                         bad = bad or q
+        # every registered vAMM is visited: observing a closed vAMM must not end the iteration
+        stops = None
+        for q in a.ok_paths():
+            seen_closed_at = None
+            for i, (kind, x) in enumerate(q.items):
+                if kind == "c" and x[1] is False:
+                    xi = ix.inline(x[0])
+                    if tag(xi) == "field" and payload(xi)[0] == "open" and ix.parse_query(kids(xi)[0]):
+                        seen_closed_at = i
+                if kind == "c" and x[1] is False and tag(x[0]) == "unwrap" and tag(kids(x[0])[0]) == "call":
+                    tgt = ix.call_target(kids(x[0])[0])
+                    if tgt is not None:
+                        xi = ix.inline(x[0])
+                        if tag(xi) == "field" and payload(xi)[0] == "open":
+                            seen_closed_at = i
+            if seen_closed_at is not None:
+                later_next = any(kind == "e" and x.name == "std::iter::Iterator::next" for (kind, x) in q.items[seen_closed_at + 1:])
+                if not later_next:
+                    stops = q
+        ctx.inst("R14.5", "shutdown-visits-all:%s" % short_fn(a.fn), stops is None, a.fn.where(),
+                 "after observing a closed vAMM the loop %s" % ("advances to the next registry entry" if stops is None else
+                 "EXITS: vAMMs registered after an already-closed one are never closed"))
         ok = sites > 0 and (bad is None or not redundant_rejected)
         ctx.inst("R14.5", "shutdown-robust:%s" % short_fn(a.fn), ok, a.fn.where(),
                  "%d SetOpen{false} emission(s) on the (bounded) success paths; vAMM rejects a redundant close: %s; %s" % (
